@@ -328,6 +328,16 @@ pub fn exec_special(ctx: &mut Ctx, ex: &mut Extra, hist: &mut Vec<String>, toks:
                 Err(_) => "gengine PANIC".to_string(),
             }
         }
+        "gselect" => {
+            // the engine's choice (book first, search otherwise) without playing it
+            let g = ex.game.as_mut().unwrap();
+            let r = catch_unwind(AssertUnwindSafe(|| g.select_waterfall_book_then_alpha_beta_best_move()));
+            match r {
+                Ok(Ok(m)) => format!("gselect Ok {}", mv_text(&m)),
+                Ok(Err(e)) => format!("gselect Err {}", format!("{:?}", e).split(|c: char| !c.is_alphanumeric()).next().unwrap_or("")),
+                Err(_) => "gselect PANIC".to_string(),
+            }
+        }
         "gunplay" => {
             // take back the last move made through the Game (test scaffolding for C15)
             let g = ex.game.as_mut().unwrap();
